@@ -22,7 +22,7 @@ RULE = ("Limits: forms from the C01 generator (0-6 parts) x max parts in {n-1, n
         "then only CRs, CR then only LFs, CR in the middle then LF at the end, dashes only} x 0.2-2 MB (thorough 8 MB) x chunk sizes {1000, 4096, 65536} through the "
         "sync and async helpers with a recording decoder subclass and a byte-counting sink. Non-trivial = a limit exactly at or one off the total, or a bound case; "
         "distinct = (form, limits, chunk size, path).")
-RULE += ' Also: two forms with the same boundary parsed at the same time under different limits (nested sync parses, two async tasks); empty chunks anywhere in the chunk list, a caller-supplied sink class whose fresh instances are falsy (has __len__), decoder-state isolation after a 413. The awrite of the file sink suspends twice per call; at every write the file bytes already taken from the request minus those written stay within the same bound.'
+RULE += ' Also: two forms with the same boundary parsed at the same time under different limits (nested sync parses, two async tasks); empty chunks anywhere in the chunk list, a caller-supplied sink class whose fresh instances are falsy (has __len__), decoder-state isolation after a 413. The awrite of the file sink suspends twice per call; at every write the file bytes already taken from the request minus those written stay within the same bound. A sink that keeps the objects it is handed and joins them after the parse; a body cut inside a text field followed by another form (its fields and its limit are its own).'
 ASSUMPTIONS = [
     "the bound is checked at quiescent points (NEED_DATA returned, i.e. between chunks) and at chunk borders, not in the middle of processing one chunk",
     "part header sections and the preamble are small in the workload (the statement's bound is about part contents)",
@@ -180,6 +180,77 @@ def limits_case(ctx, form, mp, mm, cs, rng):
     ctx.mon("sync-equals-async")
     if len(got) == 2 and got["sync"] != got["async"]:
         ctx.violation("sync-and-async-disagree", {"form": form, "max_parts": mp, "max_bytes": mm, "chunk": cs}, repr(got))
+
+
+class KeepSink(Sink):
+    """a sink that keeps what it is handed and puts it together at the end (a list of pieces, written out later)"""
+
+    def __init__(self, filename, headers):
+        super().__init__(filename, headers)
+        self.pieces = []
+
+    def write(self, data):
+        self.pieces.append(data)
+
+    async def awrite(self, data):
+        self.pieces.append(data)
+
+
+def kept_pieces_and_leftovers(ctx, rng):
+    """(1) the file sink keeps the objects it is handed: put together after the parse they are the upload;
+    (2) a body that ends in the middle of a text field (the client went away) is followed by the next client's form:
+        its fields are its own and are counted against its own limit"""
+    from baize.exceptions import RequestEntityTooLarge
+    boundary = b"bnd"
+    size, cs = rng.choice([(700, 64), (5000, 1000), (300, 7), (70_000, 16_384)])
+    content = bytes(rng.randrange(256) for _ in range(size)).replace(b"--bnd", b"__bnd")
+    form = {"boundary": boundary, "parts": [{"name": "f", "filename": "up.bin", "content": content, "ctype": None, "extra": False}], "preamble": b"", "epilogue": b"", "pad": b""}
+    body, _ = MC.encode(form)
+    chunks = [body[i:i + cs] for i in range(0, len(body), cs)]
+    for mode in ("sync", "async"):
+        case = {"sink_keeps_the_pieces_it_is_handed": True, "size": size, "chunk": cs, "mode": mode}
+        try:
+            items = parse(mode, chunks, boundary, file_factory=KeepSink)
+        except Exception as e:  # noqa
+            ctx.violation(f"limits|exception|{type(e).__name__}|{mode}", case, repr(e)[:200])
+            continue
+        ctx.mon("kept-pieces")
+        got = b"".join(bytes(x) for x in items[0][1].pieces)
+        if got != content:
+            i = next((i for i in range(min(len(got), len(content))) if got[i] != content[i]), min(len(got), len(content)))
+            ctx.violation(f"pieces-kept-by-the-sink-changed-afterwards|{mode}", case, f"{len(got)} bytes put together, {len(content)} uploaded; first difference at {i}")
+    # ---- leftovers of a truncated body
+    secret = b"S" * rng.choice([5, 40, 300])
+    cut_form = {"boundary": boundary, "parts": [{"name": "a", "filename": None, "content": b"first", "ctype": None, "extra": False},
+                                                {"name": "b", "filename": None, "content": secret + b"-the-rest-never-arrives", "ctype": None, "extra": False}],
+                "preamble": b"", "epilogue": b"", "pad": b""}
+    cbody, spans = MC.encode(cut_form)
+    cut = spans[1][0] + len(secret)
+    nxt = {"boundary": boundary, "parts": [{"name": "x", "filename": None, "content": b"12345", "ctype": None, "extra": False},
+                                           {"name": "y", "filename": None, "content": b"678", "ctype": None, "extra": False}], "preamble": b"", "epilogue": b"", "pad": b""}
+    nbody, _ = MC.encode(nxt)
+    for mode in ("sync", "async"):
+        for limit, want413 in ((8, False), (7, True), (None, False)):
+            case = {"body_cut_inside_a_text_field_then_the_next_form": True, "mode": mode, "limit_of_the_next_form": limit, "cut_after_field_bytes": len(secret)}
+            try:
+                parse(mode, [cbody[:cut][i:i + 11] for i in range(0, cut, 11)], boundary, file_factory=Sink, max_form_memory_size=1000)
+            except Exception:  # noqa  (what a truncated body gives is C01 / C12's subject)
+                pass
+            try:
+                items = parse(mode, [nbody[i:i + 9] for i in range(0, len(nbody), 9)], boundary, file_factory=Sink, max_form_memory_size=limit)
+                got = [(k, v) for k, v in items]
+                got413 = False
+            except RequestEntityTooLarge:
+                got413, got = True, None
+            except Exception as e:  # noqa
+                ctx.violation(f"limits|exception|{type(e).__name__}|{mode}", case, repr(e)[:200])
+                continue
+            ctx.mon("form-after-a-truncated-one")
+            if got413 != want413:
+                ctx.violation(f"limit-inexact|{'413-missing' if want413 else 'spurious-413'}|after-a-truncated-body|{mode}", case, f"field bytes 8, limit {limit}")
+            elif got is not None and got != [("x", "12345"), ("y", "678")]:
+                ctx.violation(f"field-text-differs|after-a-truncated-body|{mode}", case, repr(got)[:200])
+    return True
 
 
 def two_parses_at_once(ctx, rng):
@@ -450,9 +521,18 @@ def run(ctx):
     for g in range(ctx.scale(60, 4000)):
         two_parses_at_once(ctx, rng)
         ctx.case(("two-parses", g, ctx.shard))
+    for g in range(ctx.scale(6, 300)):
+        kept_pieces_and_leftovers(ctx, rng)
+        ctx.case(("kept-pieces-and-leftovers", g, ctx.shard))
 
 
 def replay(ctx, case):
+    if "sink_keeps_the_pieces_it_is_handed" in case or "body_cut_inside_a_text_field_then_the_next_form" in case:
+        rng = ctx.rng("c15-replay")
+        for _ in range(30):
+            kept_pieces_and_leftovers(ctx, rng)
+        ctx.case(1)
+        return
     if case.get("two_parses_at_once"):
         print("two-parses-at-once cases are replayed by seed (VERIF_SEED / tier of the record)")
         return
